@@ -85,14 +85,21 @@ class Ctx:
         self.name, self.ic = case['name'], case['icut']
         self.crys, self.chem, self.sitelist, self.jn = catalog.network(self.name, self.ic)
         self.M = ps.PairModel(self.crys, self.chem, self.jn)
-        self.viol, self.seen, self.ncmp = [], set(), 0
+        self.seen, self.ncmp, self.per = set(), 0, {}
         self.sub = case['key'].split(':', 2)[2]
 
     def bad(self, oracle, what, detail=None):
         key = '{}:c{}:{}:{}'.format(self.name, self.ic, self.sub, what)
         if (oracle, key) in self.seen: return
         self.seen.add((oracle, key))
-        self.viol.append({'oracle': oracle, 'key': key, 'detail': detail, 'case': self.case})
+        self.per.setdefault(oracle, []).append({'oracle': oracle, 'key': key, 'detail': detail, 'case': self.case})
+
+    @property
+    def viol(self):
+        """at most 3 signatures per oracle and case: the lexicographically smallest keys (hash-seed independent choice)"""
+        out = []
+        for o in sorted(self.per): out += sorted(self.per[o], key=lambda v: v['key'])[:3]
+        return out
 
 
 def jdesc(M, p):
